@@ -195,7 +195,7 @@ impl Check for C07Check {
             Phase::random("token-soups", tier.pick(60_000, 2_000_000), 120).with_min_tape(6).with_chunk(1024),
             Phase::random("random-operator-expressions", tier.pick(60_000, 2_000_000), 96).with_min_tape(16).with_chunk(1024),
             Phase::random("random-core-asts", tier.pick(40_000, 1_000_000), 160).with_min_tape(24).with_chunk(512),
-            Phase::exhaustive("repetition", repetition_programs().len() as u64).with_chunk(16),
+            Phase::exhaustive("repetition", repetition_corpus().len() as u64).with_chunk(16),
             // quick: every 3rd composition (the index is scrambled by a stride coprime to the space), thorough: all
             Phase::exhaustive("two-level-compositions", compose_count() / tier.pick(4, 1)).with_chunk(4096),
         ]
@@ -203,7 +203,7 @@ impl Check for C07Check {
     fn run(&self, tier: Tier, phase: usize, input: &Input, ctx: &mut CaseCtx) {
         match (phase, input) {
             (_, Input::Text(s)) => execute_all(s, ctx, 3000),
-            (6, Input::Index(i)) => execute_all(&repetition_programs()[*i as usize], ctx, 3000),
+            (6, Input::Index(i)) => execute_all(&repetition_corpus()[*i as usize], ctx, 3000),
             (7, Input::Index(i)) => {
                 ctx.class("two-level-composition");
                 // quick takes every 4th index, offset by the seed-independent position so that all residues of the
